@@ -5,14 +5,18 @@
      f <type> <channels> <width> <height> <planes> <frame_id> <pixel bytes, hex | ->
      r                  the reset signal is pending during this call
      p                  next call
+     acq <k>            the thread returns; next acquisition on the SAME filter instance with window k
+                        (Window.run_acquisitions: the fold of the per-acquisition model over the acquisitions)
      end
 
    Output (compared line by line with the harness after '#' comments are stripped):
      NEW ..
+     A <i> k=<k>                  acquisition i begins
      S <n> reset=<b> ids=<..>     echo of the step
      O bytes=.. id=.. type=.. dims=.. strides=.. px=<bit patterns>      frames committed by that call
      O ..                         frame committed by Finalize
      T ecode=<0|1>
+     A <i+1> k=<k'> ...           (one A .. T group per acquisition)
      END
 
    A second command, for the arithmetic alone:
@@ -54,9 +58,12 @@ let print_oframe (o : oframe) =
   print_newline ()
 
 let () =
-  let k = ref 0 and outcap = ref 0 and prefill = ref 0 in
+  let outcap = ref 0 and prefill = ref 0 in
+  let k = ref 0 in
+  let acqs = ref [] in   (* finished acquisitions, reversed: (k, steps) *)
   let steps = ref [] and cur = ref [] and cur_reset = ref false and have = ref false in
   let close_step () = steps := (List.rev !cur, !cur_reset) :: !steps; cur := []; cur_reset := false in
+  let close_acq () = close_step (); acqs := (!k, List.rev !steps) :: !acqs; steps := [] in
   (try
      while true do
        let line = String.trim (input_line stdin) in
@@ -66,7 +73,7 @@ let () =
        | s :: _ when String.length s > 0 && s.[0] = '#' -> ()
        | ["new"; a; b; c; d] ->
          k := int_of_string a; outcap := int_of_string c; prefill := int_of_string ("0x" ^ d);
-         steps := []; cur := []; cur_reset := false; have := true;
+         acqs := []; steps := []; cur := []; cur_reset := false; have := true;
          Printf.printf "NEW %s %s %s %02x\n" a b c !prefill
        | "mean" :: pf :: vs ->
          let x0 = f32_of_bits (z_of_int (int_of_string ("0x" ^ pf))) in
@@ -77,24 +84,29 @@ let () =
          cur := { f_id = z_of_int (int_of_string id); f_shape = sh; f_data = bytes_of_hex hex } :: !cur
        | ["r"] when !have -> cur_reset := true
        | ["p"] when !have -> close_step ()
+       | ["acq"; a] when !have -> close_acq (); k := int_of_string a
        | ["end"] when !have ->
-         close_step ();
-         let steps_l = List.rev !steps in
+         close_acq ();
+         let acqs_l = List.rev !acqs in
          let pf = !prefill in
          let dirty = f32_of_bits (z_of_int (pf lor (pf lsl 8) lor (pf lsl 16) lor (pf lsl 24))) in
-         let e = { e_k = z_of_int !k; e_outcap = z_of_int !outcap; e_dirty = dirty } in
-         let ((outs, fin), ec) = run_thread e steps_l in
-         (* run_thread stops at the first failing call: outs may be shorter than steps *)
-         let rec pr ss os = match ss, os with
-           | (fr, rs) :: ss', o :: os' ->
-             Printf.printf "S %d reset=%d ids=%s\n" (List.length fr) (if rs then 1 else 0)
-               (if fr = [] then "-" else String.concat "," (List.map (fun f -> string_of_int (int_of_z f.f_id)) fr));
-             List.iter print_oframe o;
-             pr ss' os'
-           | _, _ -> () in
-         pr steps_l outs;
-         List.iter print_oframe fin;
-         Printf.printf "T ecode=%d\n" (int_of_z ec);
+         let env_of kk = { e_k = z_of_int kk; e_outcap = z_of_int !outcap; e_dirty = dirty } in
+         (* the whole history of the filter instance in one call of the extracted fold *)
+         let results = run_acquisitions (List.map (fun (kk, st) -> (env_of kk, st)) acqs_l) in
+         List.iteri (fun i ((kk, steps_l), ((outs, fin), ec)) ->
+             Printf.printf "A %d k=%d\n" i kk;
+             (* run_steps stops at the first failing call: outs may be shorter than steps *)
+             let rec pr ss os = match ss, os with
+               | (fr, rs) :: ss', o :: os' ->
+                 Printf.printf "S %d reset=%d ids=%s\n" (List.length fr) (if rs then 1 else 0)
+                   (if fr = [] then "-" else String.concat "," (List.map (fun f -> string_of_int (int_of_z f.f_id)) fr));
+                 List.iter print_oframe o;
+                 pr ss' os'
+               | _, _ -> () in
+             pr steps_l outs;
+             List.iter print_oframe fin;
+             Printf.printf "T ecode=%d\n" (int_of_z ec))
+           (List.combine acqs_l results);
          print_string "END\n";
          have := false
        | _ -> Printf.printf "BADOP %s\n" line
